@@ -311,6 +311,10 @@ func getAdditionalImports(protoFile *protogen.File, goPackageForFile map[string]
 func additionalImportsForType(p protogen.GoImportPath, m *protogen.Message, goPackageForFile map[string]string) map[string]string {
 	res := map[string]string{}
 	for _, fld := range m.Fields {
+		if fld.Desc.IsMap() {
+			// the map entry message is always local, the type of its value need not be
+			fld = fld.Message.Fields[1]
+		}
 		switch fld.Desc.Kind() {
 		case protoreflect.MessageKind:
 			if ip := fld.Message.GoIdent.GoImportPath; ip != p {
